@@ -363,6 +363,7 @@ pub fn check(world: &World, sc: &C04) -> Report {
     }
     // measure the sharing history (library's own duplicate table)
     let dup = duplicate_table(&env, &sc.batch);
+    rep.probe("worlds_with_caller_restricted_colours", world.restrict.is_some() as u64);
     rep.probe("batches", 1);
     rep.probe("formulae", n as u64);
     rep.probe("duplicate_entries", dup.len() as u64);
